@@ -25,8 +25,8 @@ TNew ==
   /\ IsEvent("new")
   /\ LET dd == BN!Norm(HB(Ev.d))
          logged == PtOf(Ev.qx, Ev.qy)
-         q == IF S!ValidPriv(dd) THEN S!PublicKey(dd) ELSE logged
-     IN /\ logged = q
+     IN \E q \in {IF S!ValidPriv(dd) THEN S!PublicKey(dd) ELSE logged} :
+        /\ logged = q
         /\ KeyNew(dd, q)
 
 TSign ==
@@ -41,11 +41,11 @@ TVerify ==
          gm == VEntryGm(Ev.entry)
          uid == HB(Ev.uid)
          msg == HB(Ev.msg)
-         e == IF gm THEN S!Digest(EffUid(uid), q, msg) ELSE HB(Ev.dig)
-         c == [NoCand EXCEPT !.kind = <<"logged", "", 0, 0>>, !.pub = q, !.gm = gm, !.uid = uid, !.msg = msg, !.e = e,
+     IN \E c \in {[NoCand EXCEPT !.kind = <<"logged", "", 0, 0>>, !.pub = q, !.gm = gm, !.uid = uid, !.msg = msg,
+                             !.e = IF gm THEN S!Digest(EffUid(uid), q, msg) ELSE HB(Ev.dig),
                              !.bytes = HB(Ev.sig), !.ints = VEntryInts(Ev.entry),
-                             !.rneg = Ev.rneg, !.r = BN!Norm(HB(Ev.r)), !.sneg = Ev.sneg, !.s = BN!Norm(HB(Ev.s))]
-     IN /\ Ev.got = Accept(c, Ev.entry)
+                             !.rneg = Ev.rneg, !.r = BN!Norm(HB(Ev.r)), !.sneg = Ev.sneg, !.s = BN!Norm(HB(Ev.s))]} :
+        /\ Ev.got = Accept(c, Ev.entry)
         /\ cand' = c
         /\ reply' = [NoReply EXCEPT !.op = "verify", !.acc = Ev.got]
         /\ UNCHANGED <<d, pub, cache, cur>>
